@@ -89,5 +89,10 @@ RowDot(row, y) == FoldSeq(LAMBDA k, acc : acc + row.v[k] * y[row.c[k] + 1], 0, [
 
 Triples(rows) == UNION {{<<i, rows[i].c[k], rows[i].v[k]>> : k \in {q \in 1..Len(rows[i].c) : rows[i].v[q] # 0}} : i \in 1..Len(rows)}
 IsTranspose(rowsR, rowsP) == TLCEval({<<t[2] + 1, t[1] - 1, t[3]>> : t \in Triples(rowsP)}) = TLCEval(Triples(rowsR))
+\* every row and every column holds exactly one entry, and that entry is 1
+IsPermutationMatrix(rows) ==
+  LET T == Triples(rows) IN
+  /\ Cardinality(T) = Len(rows) /\ \A t \in T : t[3] = 1
+  /\ Cardinality({t[1] : t \in T}) = Len(rows) /\ Cardinality({t[2] : t \in T}) = Len(rows)
 IsIdentity(rows, one) == Triples(rows) = {<<i, i - 1, one>> : i \in 1..Len(rows)}
 =============================================================================
